@@ -110,14 +110,26 @@ func keyID(c *x509.Certificate) uint64  { return vp.GhostGet(c, "keyid").(uint64
 //vp:model (crypto/x509/pkix.Name).String
 func m_NameString(n pkix.Name) string { return n.SerialNumber }
 
+// Equal: same DER bytes, i.e. the same certificate.
+//
+//vp:model (*crypto/x509.Certificate).Equal
+func m_CertEqual(c, other *x509.Certificate) bool {
+	if c == nil || other == nil {
+		return c == other
+	}
+	return certID(c) == certID(other)
+}
+
 //vp:model (*crypto/x509.Certificate).CheckSignatureFrom
 func m_CheckSignatureFrom(c *x509.Certificate, parent *x509.Certificate) error {
 	// nil iff c's signature verifies under parent's key and the other
 	// conditions crypto/x509 imposes (CA bit, key usage, algorithm) hold
+	if !vp.UFBool("IssuerOK", certID(c), certID(parent)) {
+		// crypto/x509 reports a parent that may not sign certificates before it looks at the signature
+		return x509.ConstraintViolationError{}
+	}
 	if vp.UFBool("SigBy", certID(c), keyID(parent)) {
-		if vp.UFBool("IssuerOK", certID(c), certID(parent)) {
-			return nil
-		}
+		return nil
 	}
 	return errSig
 }
@@ -250,13 +262,26 @@ func verifyModel(c *x509.Certificate, roots, inters []*x509.Certificate, t time.
 			ok = vp.Or(ok, via)
 		}
 	}
-	return vp.And(ok, inWindow(c, t))
+	// a certificate with a critical extension that crypto/x509 does not handle is never valid
+	return vp.And(ok, inWindow(c, t), len(c.UnhandledCriticalExtensions) == 0)
 }
 
 //vp:model (*crypto/x509.Certificate).Verify
 func m_Verify(c *x509.Certificate, opts x509.VerifyOptions) ([][]*x509.Certificate, error) {
 	if verifyModel(c, poolCerts(opts.Roots), poolCerts(opts.Intermediates), opts.CurrentTime) {
 		return [][]*x509.Certificate{{c}}, nil
+	}
+	// the failure is reported with one of the error types crypto/x509 uses
+	if len(c.UnhandledCriticalExtensions) != 0 {
+		return nil, x509.UnhandledCriticalExtension{}
+	}
+	switch vp.UFU64("VerifyErrorKind", certID(c)) % 4 {
+	case 0:
+		return nil, x509.UnknownAuthorityError{}
+	case 1:
+		return nil, x509.CertificateInvalidError{Cert: c, Reason: x509.Expired}
+	case 2:
+		return nil, x509.UnhandledCriticalExtension{}
 	}
 	return nil, errVerify
 }
@@ -290,6 +315,10 @@ func m_ParseRevocationList(der []byte) (*x509.RevocationList, error) {
 
 //vp:model (*crypto/x509.RevocationList).CheckSignatureFrom
 func m_CrlCheckSignatureFrom(rl *x509.RevocationList, parent *x509.Certificate) error {
+	if !vp.UFBool("CrlIssuerOK", vp.GhostGet(rl, "id").(uint64), certID(parent)) {
+		// a parent whose key usage lacks cRLSign: reported before the signature is looked at
+		return x509.ConstraintViolationError{}
+	}
 	if vp.UFBool("CrlSigBy", vp.GhostGet(rl, "id").(uint64), keyID(parent)) {
 		return nil
 	}
